@@ -387,6 +387,45 @@ def c07f(ck, prog):
                 got = ["%s(%s)" % (payload.name, ",".join(decision.describe_deep(f, a, 12) for a in payload.args))]
             elif kind == "move":
                 got = [decision.describe_deep(f, payload, 12)]
+        # `params.assume_nth::<K>()`: a private const-generic accessor whose own body answers `list[N]` for its parameter N
+        # (an unevaluated constant in the generic body): the slot is the K it is instantiated with
+        via_const_generic = []
+        g0 = fs[0]
+        elems = []
+        for bb, kind, payload in _paths.ret_sites(g0):
+            if kind == "other" and payload[0] == "agg":
+                elems = list(payload[2])
+            elif kind == "call":
+                elems = [None]
+                via_const_generic = [payload]
+            elif kind == "other" and payload[0] == "ref":
+                elems = [["c", [payload[2][0], []]]]
+        if elems and elems != [None]:
+            via_const_generic = [_paths.root_call(g0, a, through=r"(::as_bytes|::assume_init_ref|::deref|::as_ref)$") for a in elems]
+        slots_cg = []
+        for rc in via_const_generic:
+            h = prog.fns.get(rc.callee) if rc is not None else None
+            if h is None or len(rc.targs) != 1 or not re.fullmatch(r"\d+", str(rc.targs[0])) or "request::path" not in h.key:
+                slots_cg = None
+                break
+            okh = False
+            for bi in sorted(h.live_blocks()):
+                for st in h.blocks[bi]["st"]:
+                    if st["k"] == "=" and st["r"][0] == "ref":
+                        pr = st["r"][2][1]
+                        if any(x[0] == "f" and x[2] == "list" for x in pr) and pr and pr[-1][0] == "i":
+                            sd = h.single_def(pr[-1][1])
+                            if sd and sd[2] == "assign" and sd[3]["r"][0] == "use" and sd[3]["r"][1][0] == "k" and "v" not in sd[3]["r"][1][1]:
+                                okh = True
+            if not okh or [c for c in h.calls() if c.name in ("len", "next", "last")]:
+                slots_cg = None
+                break
+            slots_cg.append(str(rc.targs[0]))
+        if slots_cg and len(slots_cg) == len(slots):
+            ok = slots_cg == slots
+            ck.ob(R, nm, ok, fs[0].loc(None), "" if ok else "%s answers slot(s) %s of the captured parameters (through a const-generic accessor), expected %s" % (nm, slots_cg, slots),
+                  how="%s -> list[N] with N = %s" % (nm, ", ".join(slots_cg)))
+            continue
         idx = []
         for d in got:
             m = re.search(r"(?:get_unchecked|index|get)\([^()]*(?:\([^()]*\))?[^()]*\.list,const (\d+)\)", d)
